@@ -606,7 +606,7 @@ def _data_strategy():
 
 COPYING = ("%s|list", "%s|sort", "%s|reverse|list", "%s|unique|list", "%s|map('string')|list", "%s|select|list",
            "%s|reject('odd')|list", "%s[:]", "(%s + [])")
-DCOPYING = ("%s|dictsort", "%s|items|list", "dict(%s)", "%s|list")
+DCOPYING = ("%s|dictsort", "%s|items|list", "%s|list", "%s|dictsort(by='value')")
 
 # tags: container_arg = a filter/function received a container argument or operand from the data
 TYPED = [
@@ -626,7 +626,7 @@ TYPED = [
     ("container_arg", "{{ DL|map(attribute='zz', default=%(any)s)|list }}"),
     ("", "{{ LL|map('sum')|list }}{{ LL|map('first')|list }}{{ LL|map('sort')|list }}{{ LL|map('list')|list }}"),
     ("container_arg", "{{ LL|map('batch', 1, %(any)s)|map('list')|list }}"),
-    ("container_arg", "{{ LL|map('sum', start=%(list)s)|list }}"),
+    ("container_arg", "{{ [LL, LL]|map('sum', start=%(list)s)|list }}"),
     ("", "{{ DL|groupby('k') }}{% for g in DL|groupby('k') %}{{ g.grouper }}:{{ g.list|length }}{% endfor %}"),
     ("container_arg", "{{ DL|groupby('zz', default=%(any)s)|length }}{{ OL|groupby('k')|length }}"),
     ("", "{{ %(seq)s|unique|list }}{{ S|unique(case_sensitive=true)|list }}{{ DL|unique(attribute='k')|list|length }}"),
@@ -645,6 +645,7 @@ TYPED = [
     ("container_arg", "{{ dict(%(dict)s, z=I) }}{{ dict(a=%(list)s) }}{{ dict(%(dict)s).update(z=1) }}"),
     ("container_arg", "{%% set c = %(copy)s %%}{%% do c.append(I) %%}{{ c }}"),
     ("container_arg", "{%% set c = %(dcopy)s %%}{{ c.pop() if c }}{{ c }}"),
+    ("container_arg", "{%% set c = dict(%(dict)s) %%}{%% do c.update(z=I) %%}{{ c.popitem() }}{{ c }}"),
     ("container_arg", "{%% set rows = %(list)s|batch(2, %(any)s)|list %%}{%% for r in rows %%}{%% do r.append(I) %%}{%% endfor %%}{{ rows }}"),
     ("container_arg", "{%% set rows = %(list)s|slice(2, %(any)s)|list %%}{%% for r in rows %%}{%% do r.insert(0, W) %%}{%% endfor %%}{{ rows }}"),
     ("container_arg", "{%% set g = DL|groupby('k') %%}{%% for k, items in g %%}{%% do items.append(I) %%}{%% endfor %%}{{ g|length }}"),
@@ -857,7 +858,7 @@ def _strategy(sizes):
                 hist.append([n, draw(st.sampled_from(weights)), draw(st.integers(0, 1))])
         hist = draw(st.permutations(hist))
         case["history"] = [list(h) for h in hist]
-        if draw(st.integers(0, 3)) == 0:
+        if 40 <= draw(st.integers(0, 99)) < 62:  # (Hypothesis favours the ends of an integer range)
             case["threads"] = {"n": draw(st.integers(8, 16)), "reps": draw(st.integers(2, 3)), "preload": draw(st.integers(0, 2)) > 0}
         else:
             case["threads"] = None
@@ -871,7 +872,9 @@ def shards(tier):
 
 
 def run_shard(spec, ctx):
-    n = ctx.pick(300, 4500)
+    import hypothesis.errors
+
+    n = ctx.pick(300, 3200)  # measured ~0.12 s CPU per case (quick sizes), ~0.17 s (thorough sizes)
     strat = _strategy(ctx.pick((7, 3, 14, 3), (10, 4, 30, 4)))
     rec = core.Rec()
     for k in THREAD_STATS:
@@ -880,7 +883,15 @@ def run_shard(spec, ctx):
     done = 0
     while done < n and not rec.violations:
         m = min(chunk, n - done)
-        core.hyp_shard(strat, check_case, ctx, m, rec=rec, tag="hist-%d" % done)
+        nviol = len(rec.violations)
+        try:
+            core.hyp_shard(strat, check_case, ctx, m, rec=rec, tag="hist-%d" % done)
+        except hypothesis.errors.Flaky:
+            # a failure that did not repeat when Hypothesis replayed the case (state kept in the process, or a thread
+            # schedule): the violation was observed and recorded by Rec.run -- report the first one, unshrunk
+            if len(rec.violations) == nviol:
+                raise
+            del rec.violations[nviol + 1:]
         done += m
     rec.extra.update(THREAD_STATS)
     return rec
